@@ -147,7 +147,7 @@ def write_ticks(case):
     t = 0
     ticks = {}
     for i, op in enumerate(case["ops"]):
-        if op["op"] == "batch" and op.get("reject"):
+        if (op["op"] == "batch" and op.get("reject")) or op.get("pre"):
             pass
         elif op["op"] == "par":
             t += len(op["sets"])
@@ -219,6 +219,10 @@ def case_term(codes, case, obs):
         oo = obs["ops"][i] if i < len(obs.get("ops", [])) else {}
         k = op["op"]
         _BASE[0] = op.get("ctx") or NS
+        if op.get("pre") or k == "recreate":
+            # `pre`: an operation on an EARLIER incarnation of a dataset that `recreate` then deletes and creates anew; the
+            # model starts with the new incarnation (deleting a dataset is C07's subject), the implementation ran all of it
+            continue
         if k in ("hquery", "jsfind"):      # the lookup through POST /query {entityId} / the JS binding FindById (always merged)
             k = "get"
             if op["op"] == "jsfind":
